@@ -265,3 +265,45 @@ Proof.
   intros Hts Hp. unfold split. rewrite Hts by (unfold search_ok; tauto). cbn [split_toks]. rewrite Hp.
   cbn [kind_eqb orb]. unfold pre; cbn [fst snd]. rewrite app_nil_r. reflexivity.
 Qed.
+
+(** ** operator lists: pipes at depth 0, so only the bracket searches pass over them *)
+Definition skipsP (ts : list token) : Prop :=
+  forall search st r, (search = KRParen \/ search = KRBracket) -> split_toks search st (ts ++ r) = pre ts (split_toks search st r).
+
+Lemma skips0_P ts : skips0 ts -> skipsP ts.
+Proof. intros H search st r Hs. apply H. destruct Hs as [->| ->]; unfold search_ok; tauto. Qed.
+
+Lemma skipsP_app a b : skipsP a -> skipsP b -> skipsP (a ++ b).
+Proof. intros Ha Hb search st r Hs. rewrite <- app_assoc, Ha, Hb, pre_app by exact Hs. reflexivity. Qed.
+
+Lemma skipsP_pipe t : tkind t = KPipe -> skipsP [t].
+Proof.
+  intros Hk search st r Hs. cbn [app split_toks]. rewrite Hk.
+  replace (kind_eqb KPipe KLParen) with false by reflexivity.
+  replace (kind_eqb KPipe KLBracket) with false by reflexivity.
+  replace (kind_eqb KPipe KRParen) with false by reflexivity.
+  replace (kind_eqb KPipe KRBracket) with false by reflexivity. cbn [orb].
+  assert (E : kind_eqb KPipe search = false) by (destruct Hs as [->| ->]; reflexivity). rewrite E.
+  destruct (split_toks search st r); reflexivity.
+Qed.
+
+Lemma ops_skipsP l ts : toks_ops l ts -> skipsP ts.
+Proof.
+  induction 1 as [|o to os tos Ho _ IH]; [intros search st r _; cbn [app]; rewrite pre_nil; reflexivity|].
+  apply skipsP_app; [|exact IH]. destruct (proj1 op_skips _ _ Ho) as (p & body & -> & Hp & Hb).
+  change (p :: body) with ([p] ++ body). apply skipsP_app; [apply skipsP_pipe; exact Hp|apply skips0_P; exact Hb].
+Qed.
+
+Lemma split_at_closerP k ts c rest : (k = KRParen \/ k = KRBracket) -> skipsP ts -> tkind c = k ->
+  split k (ts ++ c :: rest) = (ts, c :: rest).
+Proof.
+  intros Hk Hts Hc. unfold split. rewrite Hts by exact Hk.
+  cbn [split_toks]. rewrite Hc.
+  destruct Hk as [->| ->]; cbn [kind_eqb orb]; unfold pre; cbn [fst snd]; rewrite app_nil_r; reflexivity.
+Qed.
+
+Lemma ops_head l ts : toks_ops l ts -> (l = [] /\ ts = []) \/ exists p r, ts = p :: r /\ tkind p = KPipe.
+Proof.
+  intros H. destruct H as [|o to os tos Ho Hos]; [left; split; reflexivity|right].
+  destruct (proj1 op_skips _ _ Ho) as (p & body & -> & Hp & _). exists p, (body ++ tos). split; [reflexivity|exact Hp].
+Qed.
